@@ -88,3 +88,43 @@ package provider
 //@ tag Source validate required
 //@ tag Limit validate min=0
 //@ tag Passes validate min=0
+
+// ---------------------------------------------------------------- the generic JSON provider (json.go)
+
+//@ func NewJSONProvider
+//@ props C08
+//@ requires conf.Decode.Queue.AmmoQueueSize >= 0
+//@ at call NewCustomJSONProvider assert [plain-json-decoding] arg(wrapDecoder) == nil && arg(conf) == conf0
+
+//@ func NewCustomJSONProvider
+//@ props C08
+//@ requires conf.Decode.Queue.AmmoQueueSize >= 0
+//@ at call NewDecodeProvider assert [limit-passes-source-and-queue-as-configured] arg(conf) == conf0.Decode
+
+// The decoder of a run reads the run's source with the configured buffer, wrapped when the caller asked for it.
+//@ func NewCustomJSONProvider#lit0
+//@ props C08
+//@ at call NewJSONAmmoDecoder assert [over-the-run-s-source] arg(r) == source && arg(buffSize) == result_of(conf.Buffer.BufferSizeOrDefault, 0)
+//@ at call wrapDecoder assert [wraps-that-decoder] arg(a1) == result_of(NewJSONAmmoDecoder, 0) && arg(a0) == deps
+//@ ensures [always-a-decoder] result1 == nil && imp(wrapDecoder == nil, result0 == result_of(NewJSONAmmoDecoder, 0)) && imp(wrapDecoder != nil, result0 == result_of(wrapDecoder, 0))
+
+//@ func DefaultJSONProviderConfig
+//@ props C17 C08
+//@ ensures result.Decode == result_of(DefaultDecodeProviderConfig, 0)
+
+// A reused ammo is reset before it is filled; a read error of the source is reported rather than the parse error it causes.
+//@ func (d *JSONAmmoDecoder) Decode
+//@ props C08 C13
+//@ nilsafe
+//@ requires d.iter != nil && d.readErrorPtr != nil
+//@ at call coreutil.ResetReusedAmmo assert [reset-before-decoding] arg(ammo) == ammo0 && calls(d.iter.ReadVal) == 0
+//@ at call d.iter.ReadVal assert [into-the-given-ammo] arg(obj) == ammo0
+//@ ensures [clean-decode] imp(d.iter.Error == nil, result == nil)
+//@ ensures [read-error-first] imp(d.iter.Error != nil, result != nil)
+
+// Reading for the JSON iterator: data is handed on without the error that came with it; an error without data is remembered.
+//@ func NewJSONAmmoDecoder#lit0
+//@ props C08 C13
+//@ ensures [data-first] imp(result_of(r.Read, 0) > 0, n == result_of(r.Read, 0) && err == nil)
+//@ ensures [error-without-data-is-remembered] imp(result_of(r.Read, 0) <= 0 && result_of(r.Read, 1) != nil, readError == result_of(r.Read, 1) && err == result_of(r.Read, 1))
+//@ at call r.Read assert arg(p) == p0
